@@ -46,6 +46,7 @@ type fq struct {
 	subCond    *sync.Cond
 	subIssued  int // Submit calls asked for
 	subDone    int // Submit calls that have returned
+	subPanics  int // Submit calls that ended in a panic of the caller (send on the closed input channel)
 	shut       int32
 	subStopped bool
 	broken     bool // a hint deadline was missed in this history
@@ -153,11 +154,26 @@ func (f *fq) submitter() {
 		r := f.subQueue[0]
 		f.subQueue = f.subQueue[1:]
 		f.mu.Unlock()
-		f.q.Submit(f.task(r.id, r.kind))
+		panicked := f.callSubmit(f.task(r.id, r.kind))
 		f.mu.Lock()
-		f.subDone++
+		if panicked {
+			f.subPanics++
+		} else {
+			f.subDone++
+		}
 		f.mu.Unlock()
 	}
+}
+
+// callSubmit calls Submit and reports whether the call panicked in the caller (what a send on the closed input does)
+func (f *fq) callSubmit(t taskqueue.Task) (panicked bool) {
+	defer func() {
+		if recover() != nil {
+			panicked = true
+		}
+	}()
+	f.q.Submit(t)
+	return false
 }
 
 func showCounts(m map[int]int) string {
@@ -199,8 +215,12 @@ func (f *fq) obs() string {
 	if f.workers == 1 {
 		st, fin = showSeq(f.startOrder), showSeq(f.finOrder)
 	}
-	return fmt.Sprintf("st=%s fin=%s rec=%s sub=%d sd=%d", st, fin, showCounts(f.recovered), f.subDone,
+	o := fmt.Sprintf("st=%s fin=%s rec=%s sub=%d sd=%d", st, fin, showCounts(f.recovered), f.subDone,
 		atomic.LoadInt32(&f.shut))
+	if f.subPanics > 0 {
+		o += fmt.Sprintf(" xp=%d", f.subPanics) // Submit calls that panicked in their caller
+	}
+	return o
 }
 
 var (
@@ -282,11 +302,15 @@ func (f *fq) release(ids []int) {
 	f.mu.Unlock()
 }
 
-func (f *fq) shutdown() bool {
+func (f *fq) shutdown() bool { return f.shutdownWhen(false) }
+
+// shutdownWhen(blocked): Shutdown is called when no Submit is outstanding (blocked = false: inside the contract) or
+// when one is blocked in Submit (blocked = true, script line `shutx`: outside the contract — the blocked send panics)
+func (f *fq) shutdownWhen(blocked bool) bool {
 	f.mu.Lock()
-	pending := f.subIssued != f.subDone
+	pending := f.subIssued != f.subDone+f.subPanics
 	f.mu.Unlock()
-	if pending || atomic.LoadInt32(&f.shut) != 0 {
+	if pending != blocked || atomic.LoadInt32(&f.shut) != 0 {
 		return false
 	}
 	atomic.StoreInt32(&f.shut, 1)
@@ -319,7 +343,7 @@ func (f *fq) dispose() {
 	}
 	for time.Now().Before(end) {
 		f.mu.Lock()
-		idle := f.subIssued == f.subDone
+		idle := f.subIssued == f.subDone+f.subPanics
 		f.mu.Unlock()
 		if idle {
 			break
@@ -327,7 +351,7 @@ func (f *fq) dispose() {
 		time.Sleep(200 * time.Microsecond)
 	}
 	f.mu.Lock()
-	idle := f.subIssued == f.subDone
+	idle := f.subIssued == f.subDone+f.subPanics
 	f.subStopped = true
 	f.subCond.Broadcast()
 	f.mu.Unlock()
@@ -482,6 +506,40 @@ func (a *forcedArea) Run(line string) string {
 		f.subCond.Broadcast()
 		f.mu.Unlock()
 		return f.settle("", hint, graceShort)
+	case "late":
+		// outside the contract: one Submit call AFTER Shutdown was called, from a goroutine of its own; the send on the
+		// closed input panics in that goroutine and nothing is accepted (xp counts such calls; a call that returns is
+		// counted as a returned Submit and its task has an id no accepted task can have)
+		if len(w) != 2 || len(w[1]) != 1 || strings.Trim(w[1], "n"+valueKinds) != "" {
+			return "bad-op"
+		}
+		if atomic.LoadInt32(&f.shut) == 0 {
+			return f.settle("late-refused ", hint, graceShort)
+		}
+		f.mu.Lock()
+		f.subIssued++
+		id := 1000 + f.subIssued
+		f.mu.Unlock()
+		go func() {
+			panicked := f.callSubmit(f.task(id, w[1][0]))
+			f.mu.Lock()
+			if panicked {
+				f.subPanics++
+			} else {
+				f.subDone++
+			}
+			f.mu.Unlock()
+		}()
+		return f.settle("", hint, graceShort)
+	case "shutx":
+		// outside the contract: Shutdown while a Submit is blocked on the full input
+		if len(w) != 1 {
+			return "bad-op"
+		}
+		if !f.shutdownWhen(true) {
+			return f.settle("shutx-refused ", hint, graceShort)
+		}
+		return f.settle("", hint, graceShort)
 	case "rel":
 		f.release(parseIDs(w[1:]))
 		return f.settle("", hint, graceShort)
@@ -514,7 +572,7 @@ func (a *forcedArea) Run(line string) string {
 		end := time.Now().Add(hintDeadline())
 		for {
 			f.mu.Lock()
-			done := f.subIssued == f.subDone && len(f.finished) >= f.subIssued
+			done := f.subIssued == f.subDone+f.subPanics && len(f.finished) >= f.subDone
 			f.mu.Unlock()
 			if done || f.broken {
 				break
@@ -582,6 +640,69 @@ func genLong(r *hx.Rng, out func(string)) {
 	out("end")
 }
 
+// genOutsideContract: histories in which the callers break the contract — Submit after Shutdown (`late`), Shutdown while a
+// Submit is blocked on the full input (`shutx`).  The model (Model/TaskQueueEnv.lean) says what the code does: such a
+// Submit panics in its caller, nothing is accepted, the accepted tasks are run and Shutdown returns.
+func genOutsideContract(r *hx.Rng, out func(string)) {
+	workers := hx.Pick(r, []int{1, 1, 2})
+	depth := hx.Pick(r, []int{0, 0, 1, 2, -1})
+	inCap := hx.Pick(r, []int{1, 1, 2})
+	out("reset")
+	out(fmt.Sprintf("new %d %d %d %d", workers, depth, inCap, hx.Pick(r, []int{0, 0, 1, 3})))
+	d := depth
+	if d < 0 {
+		d = 2
+	}
+	// enough tasks to block the submitter of a bounded queue: workers running, `tasks` full, one held, the backlog, `in`
+	k := 2*workers + 1 + d + inCap + r.Range(0, 2)
+	// one Submit per line (each settles before the next: which Submit blocks does not depend on the schedule); the last
+	// line asks for two, so that a `shutx` finds one blocked send and one more to come
+	for j := 0; j < k; j++ {
+		fl := "n"
+		if r.Chance(1, 5) {
+			fl = string(valueKinds[r.Intn(len(valueKinds))])
+		}
+		if j == k-2 && r.Bool() {
+			out("sub " + fl + "n")
+			break
+		}
+		out("sub " + fl)
+	}
+	rel := 0
+	if r.Chance(1, 3) {
+		out("rel 0")
+		rel = 1
+	}
+	if r.Chance(1, 2) {
+		out("shutx") // refused when no Submit is blocked (unbounded queue, or the release made room)
+		out("shut")  // refused when shutx was accepted
+	} else {
+		// inside the contract up to Shutdown, then late calls
+		out("late n") // refused: Shutdown has not been called
+		for rel < k {
+			out("rel " + strconv.Itoa(rel))
+			rel++
+		}
+		out("shut")
+	}
+	for n := r.Range(1, 3); n > 0; n-- {
+		out("late " + string("npsz"[r.Intn(4)]))
+	}
+	for rel < k {
+		m := r.Range(1, 3)
+		var ids []string
+		for j := 0; j < m && rel < k; j++ {
+			ids = append(ids, strconv.Itoa(rel))
+			rel++
+		}
+		out("rel " + strings.Join(ids, " "))
+		if r.Chance(1, 4) {
+			out("late n")
+		}
+	}
+	out("end")
+}
+
 // Gen emits histories `reset / new W D C / … / obs`; n counts script lines.
 func (a *forcedArea) Gen(r *hx.Rng, n int, tier string, emit func(string)) {
 	lines := 0
@@ -589,6 +710,10 @@ func (a *forcedArea) Gen(r *hx.Rng, n int, tier string, emit func(string)) {
 	for lines < n {
 		if r.Chance(1, 10) {
 			genLong(r, out)
+			continue
+		}
+		if r.Chance(1, 9) {
+			genOutsideContract(r, out)
 			continue
 		}
 		workers := hx.Pick(r, []int{1, 1, 2, 2, 3, 5, 8})
